@@ -123,6 +123,37 @@ theorem C08_list_inputs_covers (a : Args) (es : List Entry) (tree : List (Entry 
     simp only [this, if_true, List.mem_append, List.mem_map]
     exact .inr ⟨x, hx, rfl⟩
 
+/-- T3, stated over paths: every file the active loader's enumeration reaches is printed *as its own path* — for a
+`--templates` directory every file below it (any depth) whose name ends in `.j2`, for the built-in package every
+loadable name with suffix `.j2`.  Two files with the same base name in different folders are two list items
+(no de-duplication by name). -/
+theorem C08_list_inputs_every_template_path (a : Args) (es : List Entry) (tree : List (Entry × OutPath))
+    (hacc : accepted a = true) (htree : buildTree a (treeEntries a es) = .ok tree) (hon : a.genSupport ≠ .only) :
+    (∀ fs, a.templates = some fs → ∀ f ∈ fs, (".j2".toList).isSuffixOf f.name.toList = true →
+        f.path ∈ (run .listInputs a es).inputs) ∧
+    (a.templates = none → ∀ n ∈ a.lang.loadable, isJ2 n = true →
+        (builtinTemplateFile a "templates" n).path ∈ (run .listInputs a es).inputs) := by
+  obtain ⟨h1, _, _⟩ := C08_list_inputs_covers a es tree hacc htree
+  refine ⟨?_, ?_⟩
+  · intro fs ht f hf hj
+    apply h1 hon
+    simp only [typeTemplates, ht, List.mem_filter]
+    exact ⟨hf, hj⟩
+  · intro ht n hn hj
+    apply h1 hon
+    simp only [typeTemplates, ht, typeLoaderFiles, List.mem_filter, List.mem_map]
+    exact ⟨⟨n, hn, rfl⟩, hj⟩
+
+/-- The printed template items are exactly the enumerated files, with multiplicity: as many items as files (a
+listing that keeps one file per base name prints fewer). -/
+theorem C08_list_inputs_template_count (a : Args) (es : List Entry) (tree : List (Entry × OutPath))
+    (hacc : accepted a = true) (htree : buildTree a (treeEntries a es) = .ok tree)
+    (hon : a.genSupport ≠ .only) (hns : shouldGenerateSupport a = false) :
+    (run .listInputs a es).inputs = (typeTemplates a).map (·.path) ++ (selected a tree).map (·.1.src) := by
+  have : (a.genSupport != .only) = true := by simpa using hon
+  unfold run runWith
+  simp [hacc, htree, listInputsOnly, listInputsWith, this, hns]
+
 /-
 T3, FULL STATEMENT (does not hold for the code as it is — two known findings, see the witnesses below):
 
@@ -248,6 +279,15 @@ example :
     let a := { wArgs with supportTemplates := some [⟨"serialization.j2", "/custom/serialization.j2"⟩] }
     "/custom/serialization.j2" ∈ (run .listInputs a []).inputs ∧
     "/pkg/nunavut/lang/c/support/serialization.j2" ∉ (run .listInputs a []).inputs := by decide
+
+/-- Same-named templates in different folders of `--templates` (seeded change C08-2): both paths are printed. -/
+def wTreeDir : List TemplateFile :=
+  [⟨"Any.j2", "/t/Any.j2"⟩, ⟨"header.j2", "/t/header.j2"⟩, ⟨"parts/header.j2", "/t/parts/header.j2"⟩,
+   ⟨"parts/deep/header.j2", "/t/parts/deep/header.j2"⟩, ⟨"data/values.txt", "/t/data/values.txt"⟩]
+
+example :
+    (run .listInputs { wArgs with genSupport := .never, templates := some wTreeDir } wEntries).inputs =
+      ["/t/Any.j2", "/t/header.j2", "/t/parts/header.j2", "/t/parts/deep/header.j2", "/ns/app/Use.1.0.dsdl"] := by decide
 
 end witnesses
 
